@@ -222,7 +222,12 @@ def _get_array_type(x):
     if data_type is pandas_engine.Engine.dtype("object"):
         inferred_alias = pd.api.types.infer_dtype(x, skipna=False)
         if inferred_alias != "string":
-            data_type = pandas_engine.Engine.dtype(inferred_alias)
+            try:
+                data_type = pandas_engine.Engine.dtype(inferred_alias)
+            except TypeError:
+                # infer_dtype aliases that have no pandera data type, e.g.
+                # "empty", "integer-na", "period": keep the object dtype
+                pass
     return data_type
 
 
